@@ -733,6 +733,48 @@ Proof.
     constructor; [apply line_okb_spec; exact H1|apply IH; exact H2].
 Qed.
 
+(* the byte-level line table the judge computes is the model's line table of the text's graphemes
+   (stated for ASCII texts, where graphemes are bytes except CR LF) *)
+Lemma bl_push_width : forall cur c w,
+  Z.of_nat w = bl_width cur ->
+  Z.of_nat (w + (if byte_ctl (nat_of_ascii c) then 0 else 1)) = bl_width (bl_push cur c).
+Proof.
+  intros cur c w H. unfold bl_width, bl_push in *. cbn [bl_bytes bl_ctl].
+  destruct (byte_ctl (nat_of_ascii c)); lia.
+Qed.
+
+Lemma ascii_line_table_from : forall n s cur w,
+  String.length s <= n -> Z.of_nat w = bl_width cur ->
+  map bl_width (text_lines_from cur s) = map Z.of_nat (line_widths_from w (init_source (gks_of_ascii s))).
+Proof.
+  induction n as [|n IH]; intros s cur w Hlen Hw.
+  - destruct s; [|cbn in Hlen; lia]. cbn. rewrite Hw. reflexivity.
+  - destruct s as [|c r].
+    + cbn. rewrite Hw. reflexivity.
+    + cbn [String.length] in Hlen.
+      cbn [text_lines_from gks_of_ascii].
+      destruct (Nat.eqb (nat_of_ascii c) 10).
+      * unfold init_source. cbn [app line_widths_from map]. rewrite Hw. f_equal.
+        apply (IH r bl0 0); [lia|reflexivity].
+      * destruct (Nat.eqb (nat_of_ascii c) 13).
+        -- destruct r as [|c2 r2].
+           ++ unfold init_source. cbn [app line_widths_from map text_lines_from gks_of_ascii]. rewrite Hw. reflexivity.
+           ++ destruct (Nat.eqb (nat_of_ascii c2) 10).
+              ** unfold init_source. cbn [app line_widths_from map]. rewrite Hw. f_equal.
+                 apply (IH r2 bl0 0); [cbn [String.length] in Hlen; lia|reflexivity].
+              ** unfold init_source. cbn [app line_widths_from map]. rewrite Hw. f_equal.
+                 apply (IH (String c2 r2) bl0 0); [lia|reflexivity].
+        -- unfold init_source. cbn [app line_widths_from].
+           apply (IH r (bl_push cur c)); [lia|apply bl_push_width; exact Hw].
+Qed.
+
+Theorem ascii_line_table_agrees : forall s,
+  map bl_width (text_lines s) = map Z.of_nat (line_widths (init_source (gks_of_ascii s))).
+Proof.
+  intros s. unfold text_lines, line_widths.
+  apply (ascii_line_table_from (String.length s)); [lia|reflexivity].
+Qed.
+
 (* the facts checked on a record of the hook log *)
 Definition hrec_ok (h : hrec) : Prop :=
   let s := h_site h in
